@@ -29,6 +29,12 @@ P = {
  "C18": ("model_checking", "SegLog.tla (writer + read-ahead caches at cell granularity) model-checked by TLC; behaviours with prescribed read results replayed on real Writer/Readers",
          "TLC explores all operation sequences (append, flush, sync, set_len, compression toggle, reopen, random/sequential read, iteration, header replacement with two long-lived readers) to the depth bound with invariants CursorAtWofs, FlushedIsLog, ReadBelowFlushedExact, NoReadBeyondFlushed; exhaustive-frontier and simulated behaviours are replayed on a real Writer<H> and two long-lived Readers (H=1,8) under five byte layouts that hit every read path, each read compared with the prescribed record identity/header version or absence.",
          "Operations are replayed sequentially; truncated tails are zero-filled by the harness (model assumption stated in SegLog!SetLen).", "5/C18", "h-seglog"),
+ "C02": ("model_checking", "EventStore.tla append rule model-checked by TLC; simulated histories with prescribed outcomes replayed on a real Database",
+         "TLC applies every transaction shape within bounds in every reachable state of the reference event-store model (gapless versions, one key per stream, contiguous transactions); simulated 40-transaction histories carry the prescribed accept/reject outcome, assigned sequences and per-event versions and the latest version/sequence of every stream/partition after every step, and are replayed on a real Database under several storage variants with reopen stutters.",
+         "Reject kinds are compared as accept/reject only.", "5/C02", "h-store"),
+ "C03": ("model_checking", "EventStore.tla read operators as oracle; histories replayed on a real Database and every scan/lookup compared",
+         "Histories generated from the model are built on a real Database with layouts that straddle 64 KiB blocks and 128 KiB..1 MiB segments; every stream and partition is scanned from every start position (0..len+2, u64::MAX), both directions, batch sizes 1,2,3,7,50, in the live segment, across sealed segments and after reopen, and compared with the model's operators with exactly the latitude the statement gives for reverse scans.",
+         "Start positions are sampled for logs longer than 24 events in intermediate checks (dense at the end of each history).", "5/C03", "h-store"),
 }
 
 NOT_YET = "not yet built in this session (planned: see DESIGN.md section 5); no claim is made"
@@ -38,6 +44,8 @@ ENGINES = [
   "kind_free_text": "Rust harness linked against /repo: table comparison with TLC output, behaviour replay on TopologyManager, exhaustive function comparison"},
  {"name": "h-seglog", "path": "harness/h-seglog", "serves_properties": ["C17", "C18"],
   "kind_free_text": "Rust harness linked against /repo/crates/seglog: SegLog.tla behaviour replay on Writer/Reader, SegFault.tla class expansion to concrete corruptions"},
+ {"name": "h-store", "path": "harness/h-store", "serves_properties": ["C01", "C02", "C03", "C04", "C05", "C06", "C15", "C16", "C19", "C20"],
+  "kind_free_text": "Rust harness linked against /repo/crates/sierradb: EventStore/Durability behaviour replay on a real Database, read oracle, crash-image enumeration, schedule control through cfg-gated hooks"},
  {"name": "tlc", "path": "spec", "serves_properties": sorted(P.keys()),
   "kind_free_text": "TLA+ specifications checked with TLC 1.8 (exhaustive + simulation), behaviours/tables exported as JSON"},
 ]
